@@ -877,6 +877,44 @@ def r12l(ctx, reg):
                        f"argument that the rewrite changes (surrounding blanks, case, composed characters, length) is not what the property gives back")
 
 
+ACCESSOR_EXCEPTIONS = {
+    ("Table.print_ranges", "getter"): "documented list form: the stored blank-separated string is split into its items",
+    ("NamedRange.name", "setter"): "documented normalisation: the name check trims the name before validating and storing it",
+}
+
+
+def r12m(ctx, reg):
+    """Explicit property accessors do not rewrite the value either.
+
+    Same obligation as R12l for the ~130 hand-written getters and setters of the element classes: between the caller's value and
+    set_attribute()/the child text (and back) there is no strip(), case change, normalisation, replace() or re.sub().  The accessors of the
+    pinned tree are clean except two documented normalisations, frozen below with their reason; a new one is reported.
+    """
+    from .c14 import _lossy_call
+    repo = ctx.repo
+    ctx.rule("R12m", "explicit property getters/setters of element classes apply no lossy string transformation (2 frozen, documented exceptions)", floor=100)
+    seen_exc = set()
+    for c in element_classes(repo) + [repo.cls("Element")]:
+        for name, fs in c.methods.items():
+            for f in fs:
+                if f.kind not in ("getter", "setter") or f.cls is not c:
+                    continue
+                key = (f"{c.name}.{name}", f.kind)
+                bad = [x for x in walk_no_nested(f.node) if isinstance(x, ast.Call) and _lossy_call(x)]
+                if key in ACCESSOR_EXCEPTIONS:
+                    seen_exc.add(key)
+                    ctx.instance("R12m", f"{f.file}:{f.ident}", f"frozen exception: {ACCESSOR_EXCEPTIONS[key]}", ok=True, nontrivial=True, line=f.node.lineno)
+                    continue
+                ctx.instance("R12m", f"{f.file}:{f.ident}", f"{f.kind}: no lossy transformation", ok=not bad, nontrivial=bool(bad), line=f.node.lineno)
+                for x in bad[:2]:
+                    ctx.report("R12m", f, x, f"{norm(x, 50)} in the {f.kind} of {c.name}.{name}",
+                               f"the {f.kind} of {c.name}.{name} rewrites the value with `{norm(x, 40)}`: a constructor argument or assigned value that the rewrite changes "
+                               f"is not what the property gives back after the round trip")
+    for key in ACCESSOR_EXCEPTIONS:
+        if key not in seen_exc:
+            ctx.note(f"R12m: frozen exception {key} no longer exists")
+
+
 def run(ctx):
     reg = build_registry(ctx.repo)
     ctx.extra["registry"] = {"modules_in_import_order": len(reg.order), "registrations": len(reg.regs), "tags": len(reg.tag2cls),
@@ -892,6 +930,7 @@ def run(ctx):
     r12j(ctx, reg)
     r12k(ctx, reg)
     r12l(ctx, reg)
+    r12m(ctx, reg)
     # `clone` is one of the access paths of the property: a clone must be a detached copy of its own (rules shared with C10)
     from .c10 import r10c, r10g
     r10c(ctx)
@@ -923,6 +962,10 @@ SEEDS = [
     Seed("get_attribute_string lower-cases", "fault", "src/odfdo/element.py", "        if value is None:\n            return None\n        return str(value)\n\n    def set_attribute(", "        if value is None:\n            return None\n        return str(value).lower()\n\n    def set_attribute(", "R12l"),
     Seed("set_attribute truncates", "fault", "src/odfdo/element.py", "        element.set(lxml_tag, str(value))", "        element.set(lxml_tag, str(value)[:255])", "R12l"),
     Seed("PropDef getter substitutes a default", "fault", "src/odfdo/element.py", "            elif value in (\"true\", \"false\"):\n                return Boolean.decode(value)\n            return str(value)\n\n        return getter", "            elif value in (\"true\", \"false\"):\n                return Boolean.decode(value)\n            return str(value) or None\n\n        return getter", "R12l"),
+    Seed("Section.name setter is not that; Table.protection_key setter trims the key", "fault", "src/odfdo/table.py",
+         '        self.set_attribute("table:protection-key", key)', '        self.set_attribute("table:protection-key", key.strip())', "R12m"),
+    Seed("Table.protection_key getter lower-cases", "fault", "src/odfdo/table.py",
+         '        return self.get_attribute_string("table:protection-key")', '        key = self.get_attribute_string("table:protection-key")\n        return key.lower() if key else key', "R12m"),
     Seed("PropDef setter names its sink arguments", "neutral", "src/odfdo/element.py", "            self.__element.set(name, str(value))", "            elem = self.__element\n            text = str(value)\n            elem.set(name, text)"),
     Seed("unregister Section", "fault", "src/odfdo/section.py", "register_element_class(Section)\n", "", "R12a"),
     Seed("Span registered for text:a too (shadowing Link)", "fault", "src/odfdo/paragraph.py",
